@@ -53,8 +53,8 @@ def plans(pid, tier):
         P.append(dict(tag="thin", groups=["p1", "p2"] if th else ["p1"], shapes="{Trimer(1, 200)}" if not th else "ThinShapes",
                       ax=[56, 60, 64, 68, 72, 76],
                       b=[(bx, by) for bx in (3, 5, 8, 11, 14) for by in (12, 15, 17, 20)] + ([(0, 12), (7, 24)] if th else []),
-                      site=[0] + ([-4, 3] if th else []), orient=[1, 2, 5] + ([6, 13] if th else []),
-                      invs=["ModelOK", "Emit"] + (["LemmasOK"] if th else [])))
+                      site=[0] + ([3] if th else []), orient=[1, 2, 5] + ([6] if th else []),
+                      invs=["ModelOK", "Emit"] + (["LemmasOK"] if th else []), timeout=10000 if th else 3000))
     elif pid == "C02":
         P.append(dict(tag="score", groups=G7, shapes="{Square, Kite, Quad, Circle, Trimer(5, 15), Trimer(10, 20)}",
                       ax=[20, 28, 40, 64] + ([32, 48] if th else []),
@@ -122,7 +122,7 @@ def crystal_check(ctx):
     runs = []
     for p in plans(pid, tier):
         r = crystal_run("%s_%s" % (pid, p["tag"]), p["groups"], p["shapes"], p["ax"], p["b"], p["site"],
-                        p["orient"], p["invs"], D=p.get("D", 8))
+                        p["orient"], p["invs"], D=p.get("D", 8), timeout=p.get("timeout", 6000 if tier == "thorough" else 3000))
         if r.get("error") or r["violations"]:
             vp.log("TOOL-ERROR: TLC on Crystal (%s): %s %s" % (p["tag"], r.get("error"), r["violations"]))
             vp.log(r["text_tail"][-1500:])
